@@ -69,6 +69,13 @@ class TaskCtx:
             interp.in_spec += 1
             try:
                 post(P)
+            except (AttributeError, KeyError) as e:
+                # the real code raised before the contract recorded the state its postcondition reads: that is "raises on an
+                # admissible input" (confirmed or not by the native replay), not a reason for the checker to crash
+                if path.outcome == "return":
+                    raise
+                P.fail("no-exception", "raises %s before the contract state was recorded (%s)" % (getattr(path.value, "exc", "?"), e),
+                       replay=getattr(self, "native", None))
             except ZeroDivisionError:
                 # arrays are lazy: a division by a constant zero inside the code's result surfaces when the
                 # result is inspected (numpy would produce inf/nan): the result is not finite
@@ -358,7 +365,10 @@ def write_replay(prop, obligation, native_key, inputs, solver_output, extra=None
     if extra:
         body.update(extra)
     h = hashlib.sha256(json.dumps(body, sort_keys=True, default=str).encode()).hexdigest()[:12]
-    path = os.path.join(d, "%s_%s.json" % (obligation.split("/")[-1].split("#")[0].replace(".", "_"), h))
+    # obligation = property/task/clause; the clause text may itself contain "/" (e.g. "N*sum(w^2)/(sum w)^2")
+    clause = obligation.split("/", 2)[2] if obligation.count("/") >= 2 else obligation.split("/")[-1]
+    clause = clause.split("#")[0].replace(".", "_").replace("/", "_over_").replace(" ", "_")[:90]
+    path = os.path.join(d, "%s_%s.json" % (clause, h))
     with open(path, "w") as fh:
         json.dump(body, fh, indent=1, default=str)
     return path
